@@ -449,20 +449,24 @@ Proof.
 Qed.
 
 Theorem mirror_correct sk ops md max :
-  wf (o_hm sk) -> silent_free sk ops = true -> late_incremental md sk = false -> fits max sk ops = true ->
+  wf (o_hm sk) -> silent_free sk ops = true -> fits max sk ops = true ->
   let r := mirror_task (mirror_init md sk max) (sub_stream md sk (snd (run_ops sk ops))) in
   snd r = None /\
   m_hm (fst r) = o_hm (fst (run_ops sk ops)) /\
   m_done (fst r) = o_done (fst (run_ops sk ops)) /\
   m_complete (fst r) = true.
 Proof.
-  intros W S L F. destruct (o_done sk) eqn:D.
+  intros W S F. cbv zeta. destruct (o_done sk) eqn:D.
   - (* subscribed after done(): nothing is broadcast any more *)
     rewrite (run_ops_done ops sk D). cbn [fst snd]. unfold mirror_init, sub_stream, initial_map. rewrite D.
     destruct md.
     + cbn. rewrite ?D. repeat split; reflexivity.
-    + unfold late_incremental in L. rewrite D in L. cbn [andb] in L. apply negb_false_iff in L.
-      destruct (o_hm sk) as [|e m] eqn:EH; [|discriminate]. cbn. rewrite ?D. repeat split; reflexivity.
+    + (* the mirror starts not done, applies the whole initial value, then [Done] *)
+      pose proof (fits_head max sk ops F) as Hh.
+      pose proof (initial_sets_up (o_hm sk) [] W) as ((_ & R0 & D0) & L0 & P0). cbn [app] in R0, L0, P0.
+      rewrite <- app_assoc.
+      rewrite (mirror_task_data _ _ [] false max D0) by lia. rewrite R0.
+      cbn. rewrite ?D. repeat split; reflexivity.
   - destruct (run_ops_live ops sk D W S) as (pre & Hs & Hd & Hr & Hp).
     specialize (Hp max F). pose proof (fits_head max sk ops F) as Hh.
     unfold mirror_init, sub_stream, initial_map. rewrite D, Hs.
@@ -514,15 +518,14 @@ Qed.
 Lemma state_at_wf init ops k : wf (o_hm (state_at init ops k)).
 Proof. unfold state_at. apply run_ops_wf. cbn [obs_of o_hm]. apply wf_of_list. Qed.
 
-Theorem mirror_ok_outside_known_classes init ops k md max :
+Theorem mirror_ok_outside_known_class init ops k md max :
   silent_free_from init ops k = true ->
-  late_incremental_at init ops k md = false ->
   fits_from max init ops k = true ->
   mirror_ok init ops k md max.
 Proof.
-  unfold silent_free_from, late_incremental_at, fits_from, mirror_ok, stream_at. intros S L F.
+  unfold silent_free_from, fits_from, mirror_ok, stream_at. intros S F.
   rewrite (final_state_split init ops k).
-  destruct (mirror_correct _ _ md max (state_at_wf init ops k) S L F) as (H1 & H2 & H3 & H4).
+  destruct (mirror_correct _ _ md max (state_at_wf init ops k) S F) as (H1 & H2 & H3 & H4).
   repeat split; try assumption. intros key. rewrite H2. reflexivity.
 Qed.
 
@@ -587,12 +590,11 @@ Qed.
 
 Theorem no_retain_mutation_ok init ops k md max :
   no_retain_mutation ops = true ->
-  late_incremental_at init ops k md = false ->
   fits_from max init ops k = true ->
   mirror_ok init ops k md max /\ hand_ok init ops k md.
 Proof.
-  intros H L F. pose proof (no_retain_mutation_sound init ops k H) as S. split.
-  - apply mirror_ok_outside_known_classes; assumption.
+  intros H F. pose proof (no_retain_mutation_sound init ops k H) as S. split.
+  - apply mirror_ok_outside_known_class; assumption.
   - apply hand_ok_outside_known_class; assumption.
 Qed.
 
@@ -628,8 +630,7 @@ Proof. split; [reflexivity|]. destruct e; cbn; tauto. Qed.
 (** ** Witnesses: the statement fails inside the known classes *)
 Definition f4_ops : list op := [Retain {| d_keep := true; d_acc := AWrite 11 |} []].
 Lemma retain_refuted :
-  silent_free_from [(1, 10)] f4_ops 0 = false /\
-  late_incremental_at [(1, 10)] f4_ops 0 Snapshot = false /\ fits_from 100 [(1, 10)] f4_ops 0 = true /\
+  silent_free_from [(1, 10)] f4_ops 0 = false /\ fits_from 100 [(1, 10)] f4_ops 0 = true /\
   ~ mirror_ok [(1, 10)] f4_ops 0 Snapshot 100 /\ ~ hand_ok [(1, 10)] f4_ops 0 Snapshot.
 Proof.
   repeat split; try (vm_compute; reflexivity).
@@ -637,14 +638,12 @@ Proof.
   - intros (_ & H & _). vm_compute in H. discriminate.
 Qed.
 
+(** The former F11 class (repaired in /repo by commit 290b96a): an incremental subscription of a
+    non-empty map made after [done()] is now mirrored correctly. *)
 Definition f11_ops : list op := [MarkDone].
-Lemma late_incremental_refuted :
-  silent_free_from [(1, 10); (2, 20)] f11_ops 1 = true /\
+Lemma late_incremental_now_ok :
   late_incremental_at [(1, 10); (2, 20)] f11_ops 1 Incremental = true /\
-  fits_from 100 [(1, 10); (2, 20)] f11_ops 1 = true /\
-  ~ mirror_ok [(1, 10); (2, 20)] f11_ops 1 Incremental 100 /\
-  hand_ok [(1, 10); (2, 20)] f11_ops 1 Incremental.
-Proof.
-  repeat split; try (vm_compute; reflexivity).
-  intros (_ & _ & H & _). vm_compute in H. discriminate.
-Qed.
+  mirror_task (mirror_init Incremental (state_at [(1, 10); (2, 20)] f11_ops 1) 100)
+              (stream_at [(1, 10); (2, 20)] f11_ops 1 Incremental)
+  = ({| m_hm := [(1, 10); (2, 20)]; m_complete := true; m_done := true; m_max := 100 |}, None).
+Proof. split; vm_compute; reflexivity. Qed.
